@@ -219,7 +219,9 @@ func httpBody(r *c.Rng, mut, token string, acct int) []byte {
 
 func genHTTP(r *c.Rng, k *Case) {
 	k.Typ = "http"
-	k.Value, _ = genID(r, true)
+	if !k.fixedID {
+		k.Value, _ = genID(r, true)
+	}
 	w := &HTTPW{Status: 200}
 	k.HTTP = w
 	switch x := r.Intn(20); {
@@ -248,6 +250,11 @@ func genHTTP(r *c.Rng, k *Case) {
 	}
 	if r.Chance(1, 10) {
 		k.PortH = c.Pick(r, []int{8080, 1, 65535, 80})
+	}
+	if !k.fixedID && w.Err == "" && !w.ReadErr && w.Status >= 100 && w.Status <= 599 && r.Chance(1, 30) {
+		// now and then the same answer is served by a loopback server and fetched by the real client
+		w.Real, w.Redirects = true, c.Pick(r, []int{0, 0, 1, 2, 10})
+		k.Mut = "real-client+" + k.Mut
 	}
 }
 
@@ -350,9 +357,11 @@ func dnsRecords(r *c.Rng, mut, token string, acct int) []string {
 
 func genDNS(r *c.Rng, k *Case) {
 	k.Typ = "dns"
-	k.Value, _ = genID(r, true)
-	if r.Chance(1, 3) {
-		k.Value = c.Pick(r, append(append([]string{}, dnsIDs...), wildIDs...))
+	if !k.fixedID {
+		k.Value, _ = genID(r, true)
+		if r.Chance(1, 3) {
+			k.Value = c.Pick(r, append(append([]string{}, dnsIDs...), wildIDs...))
+		}
 	}
 	w := &DNSW{}
 	k.DNS = w
@@ -378,13 +387,20 @@ var tlsMuts = []string{
 func genTLS(r *c.Rng, k *Case) {
 	k.Typ = "tls"
 	var class string
-	k.Value, class = genID(r, false)
-	if r.Chance(1, 25) {
-		k.Value, class = c.Pick(r, []string{"", "a b", "host:80", "1.2.3", "[::1]"}), "weird"
-	}
 	unicodeID := false
-	if r.Chance(1, 12) { // identifiers with runes whose case folding reaches ASCII (or does not), and broken UTF-8
-		k.Value, class, unicodeID = c.Pick(r, unicodeIDs), "dns", true
+	if k.fixedID {
+		class = "dns"
+		if ipField(k.Value) != "!" {
+			class = "v4"
+		}
+	} else {
+		k.Value, class = genID(r, false)
+		if r.Chance(1, 25) {
+			k.Value, class = c.Pick(r, []string{"", "a b", "host:80", "1.2.3", "[::1]"}), "weird"
+		}
+		if r.Chance(1, 12) { // identifiers with runes whose case folding reaches ASCII (or does not), and broken UTF-8
+			k.Value, class, unicodeID = c.Pick(r, unicodeIDs), "dns", true
+		}
 	}
 	w := &TLSW{ServerProtos: []string{"acme-tls/1"}}
 	k.TLS = w
@@ -546,6 +562,9 @@ func genCase(r *c.Rng) *Case {
 	case x < 3:
 		genRev(r, k)
 		return k
+	case x < 6:
+		genConv(r, k)
+		return k
 	}
 	k.Token = genToken(r)
 	k.Strict = r.Chance(1, 3)
@@ -630,7 +649,29 @@ func corner() []*Case {
 			out = append(out, &Case{Op: "types", IDType: t, Raw: raw})
 		}
 	}
+	// the real validation client (acme/client.go) against loopback servers
+	for a := 0; a < 2; a++ {
+		a := a
+		ka := expectedKeyAuth(tok, a)
+		for _, h := range []HTTPW{{Status: 200, Body: []byte(ka)}, {Status: 200, Body: []byte(ka + "\n"), Redirects: 1}, {Status: 200, Body: []byte(ka), Redirects: 9},
+			{Status: 200, Body: []byte(ka), Redirects: 10}, {Status: 200, Body: []byte(ka), Redirects: 11}, {Status: 404, Body: []byte(ka)}, {Status: 503, Body: []byte(ka)},
+			{Status: 200, Body: []byte(expectedKeyAuth(tok, a+2))}, {Status: 200, Body: []byte(ka), Refused: true}, {Status: 204}} {
+			h := h
+			h.Real = true
+			add(func(k *Case) { k.Acct, k.Typ, k.Mut, k.HTTP = a, "http", "real-client", &h })
+		}
+		good := ExtSpec{OID: "acme", Critical: true, Value: octetString(sha(ka))}
+		for _, t := range []TLSW{{ServerProtos: []string{"acme-tls/1"}, Exts: []ExtSpec{good}}, {ServerProtos: []string{"h2"}, Exts: []ExtSpec{good}},
+			{ServerProtos: nil, Exts: []ExtSpec{good}}, {ServerProtos: []string{"acme-tls/1"}, Exts: []ExtSpec{{OID: "acme", Critical: false, Value: good.Value}}},
+			{ServerProtos: []string{"acme-tls/1"}, Exts: []ExtSpec{good}, Refused: true}, {ServerProtos: []string{"acme-tls/1"}, Exts: []ExtSpec{good}, ServerMaxVer: 0x0302},
+			{ServerProtos: []string{"acme-tls/1"}, Exts: []ExtSpec{{OID: "acme", Critical: true, Value: octetString(sha(expectedKeyAuth(tok, a+2)))}}}} {
+			t := t
+			t.Real, t.IPs = true, []string{"127.0.0.1"}
+			add(func(k *Case) { k.Acct, k.Typ, k.Mut, k.TLS = a, "tls", "real-client", &t })
+		}
+	}
 	out = append(out, cornerDA()...)
 	out = append(out, cornerWire()...)
+	out = append(out, cornerConv()...)
 	return out
 }
